@@ -827,7 +827,7 @@ func (t *Trans) enterLoop(fr *Frame, lr *loopRec, reach string, pre State, phiPr
 			lr.spec = &LoopSpec{}
 		}
 		if lr.spec.Decreases == nil {
-			lr.spec = &LoopSpec{Invariants: lr.spec.Invariants, Decreases: &Clause{Kind: "decreases", Expr: mustSx("(bvsub LENMAX rangeindex)"), Src: "auto"}}
+			lr.spec = &LoopSpec{Invariants: lr.spec.Invariants, Reveals: lr.spec.Reveals, Decreases: &Clause{Kind: "decreases", Expr: mustSx("(bvsub LENMAX rangeindex)"), Src: "auto"}}
 		}
 		if lr.spec != nil {
 			invs = lr.spec.Invariants
@@ -888,6 +888,11 @@ func (t *Trans) enterLoop(fr *Frame, lr *loopRec, reach string, pre State, phiPr
 	}
 	for _, ai := range lr.autoInv {
 		t.assume(reach, ai.build(scH))
+	}
+	if lr.spec != nil {
+		for _, rv := range lr.spec.Reveals {
+			t.assume(reach, revealInstance(scH, rv))
+		}
 	}
 	if lr.spec != nil && lr.spec.Decreases != nil {
 		e := lr.spec.Decreases.Expr
